@@ -8,7 +8,7 @@ puresnmp from there (VERIF_REPO_SRC) so several seeds can be evaluated in
 parallel without touching /repo.  Results go to seeded/<name>/detection.json
 and a markdown table is printed.
 
-    tools/seedmatrix.py [--all] [--only NAME,...] [--par 3] [--jobs 5]
+    tools/seedmatrix.py [--all | --checks C10,C11] [--only NAME,...] [--par 3] [--jobs 5]
 """
 import concurrent.futures as cf
 import glob
@@ -36,7 +36,12 @@ def sh(cmd, **kw):
     return subprocess.run(cmd, shell=True, text=True, stdout=subprocess.PIPE, stderr=subprocess.STDOUT, **kw)
 
 
+CHECKS = None     # --checks C10,C11: exactly these checks
+
+
 def checks_for(prop, everything):
+    if CHECKS:
+        return CHECKS
     if everything:
         return ALL
     out = []
@@ -102,6 +107,9 @@ def main():
     par = int(args[args.index("--par") + 1]) if "--par" in args else 3
     jobs = int(args[args.index("--jobs") + 1]) if "--jobs" in args else 5
     only = args[args.index("--only") + 1].split(",") if "--only" in args else None
+    global CHECKS
+    if "--checks" in args:
+        CHECKS = args[args.index("--checks") + 1].split(",")
     names = sorted(os.path.basename(p.rstrip("/")) for p in glob.glob(os.path.join(VERIF, "seeded", "*/")))
     if only:
         names = [n for n in names if n in only]
